@@ -51,6 +51,17 @@ func (c *IndividualCompare) appendDiffRow(rows []core.Component, row *DiffRow) [
 	return append(rows, row)
 }
 
+// newCompareOptions returns the options for comparing the relatives of the
+// individuals. They have to be new options every time because the options
+// also remember which individuals have already been matched, and the options
+// for the whole diff are shared by all of the workers.
+func (c *IndividualCompare) newCompareOptions() *gedcom.IndividualNodesCompareOptions {
+	options := gedcom.NewIndividualNodesCompareOptions()
+	options.SimilarityOptions = c.compareOptions.SimilarityOptions
+
+	return options
+}
+
 func (c *IndividualCompare) isEmpty() bool {
 	// Trigger cache.
 	buf := bytes.NewBuffer(nil)
@@ -145,7 +156,7 @@ func (c *IndividualCompare) writeHTMLTo(w io.Writer) (int64, error) {
 		}
 	}
 
-	for _, parents := range leftParents.Compare(rightParents, c.compareOptions) {
+	for _, parents := range leftParents.Compare(rightParents, c.newCompareOptions()) {
 		var row *DiffRow
 		name := "Parent"
 
@@ -173,7 +184,7 @@ func (c *IndividualCompare) writeHTMLTo(w io.Writer) (int64, error) {
 	// Spouses
 	switch {
 	case !gedcom.IsNil(left) && !gedcom.IsNil(right):
-		for _, spouse := range left.Spouses().Compare(right.Spouses(), c.compareOptions) {
+		for _, spouse := range left.Spouses().Compare(right.Spouses(), c.newCompareOptions()) {
 			nodeDiff := &gedcom.NodeDiff{}
 
 			if spouse.Left != nil {
